@@ -25,6 +25,7 @@ from lsim import gen
 from lsim import minimise
 
 PROPERTY = 'C13'
+NONPROGRAM_OPS = ('clock', 'chdir', 'setenv')
 T0 = 1700000000.123456
 INCANTATION = 'Signa inter verba conjugo, symbolum infixus evoco!'
 STOP_RE = re.compile(r'logical_stop_\d+_')
@@ -42,6 +43,7 @@ class Clock(object):
 
 
 _env = None
+_ORIG = {}
 
 
 def env():
@@ -60,6 +62,9 @@ def env():
       from common import concertina_lib
     clock = Clock()
     recursion_library.time = clock
+    if not _ORIG:
+      _ORIG['cwd'] = os.getcwd()
+      _ORIG['environ'] = dict(os.environ)
     _env = {'parse': parse, 'universe': universe, 'functors': functors,
             'rule_translate': rule_translate, 'infer': infer, 'clock': clock,
             'expr_translate': expr_translate, 'recursion_library': recursion_library,
@@ -75,6 +80,13 @@ def reset_universe():
   (fork of a never-used zygote) before it counts."""
   global _env
   import importlib
+  if _ORIG:
+    # a fresh process starts in the original directory with the original environment
+    os.chdir(_ORIG['cwd'])
+    for k in list(os.environ):
+      if k not in _ORIG['environ']:
+        del os.environ[k]
+    os.environ.update(_ORIG['environ'])
   doomed = []
   for name, mod in list(sys.modules.items()):
     f = getattr(mod, '__file__', None)
@@ -146,6 +158,14 @@ def run_history_here(case):
     if kind == 'clock':
       clock.now += op[1]
       clock.moved = True
+      out.append({'op': op})
+      continue
+    if kind == 'chdir':
+      os.chdir(case['dirs'][op[1]])
+      out.append({'op': op})
+      continue
+    if kind == 'setenv':
+      os.environ[op[1]] = op[2]
       out.append({'op': op})
       continue
     req = programs[op[1]]
@@ -364,13 +384,17 @@ ENGINES = ['sqlite', 'sqlite', 'psql', 'duckdb', 'bigquery']
 def gen_request(r, scratch, idx):
   """A generated program (files on disk under scratch) and its compilable predicates."""
   kind = r.choice(['nonrec', 'nonrec', 'rec', 'rec', 'functor', 'imports', 'imports', 'incant',
-                   'needs_incant', 'bad', 'flags', 'dialect_rec', 'typed', 'typed'])
+                   'needs_incant', 'bad', 'flags', 'dialect_rec', 'typed', 'typed', 'attach_rel'])
   root = None
   flags = None
   bad = False
   if kind == 'nonrec':
-    p = gen.gen_nonrecursive(r)
+    p = gen.gen_nonrecursive(r, plain_names=r.random() < 0.5)
     eng = r.choice(ENGINES)
+    if r.random() < 0.4:
+      # the same predicate names are grounded in some programs of the pool and plain in others
+      names = gen.idb_names(p)
+      p['ground'] = sorted(set(r.sample(names, min(len(names), r.choice([1, 2])))))
     text = '@Engine("%s");\n' % eng + gen.render(p, engine_line=False)
     preds = gen.idb_names(p)
   elif kind in ('rec', 'dialect_rec'):
@@ -426,6 +450,11 @@ def gen_request(r, scratch, idx):
     # valid only with the experimental syntax switched on; a parse error otherwise
     text = '@Engine("sqlite");\n`---`(left:, right:) = left * 10 + right;\nT(1 --- 2);\nU(x) :- T(x);\n'
     preds = ['T', 'U']
+  elif kind == 'attach_rel':
+    # a database attached by a relative file name: the SQL must carry exactly that name
+    text = ('@Engine("sqlite");\n@AttachDatabase("logica_home", "people.db");\n@Ground(G);\n'
+            'E(1); E(2); E(5);\nG(x) :- E(x), x > 1;\nT(x + 1) :- G(x);\n')
+    preds = ['T', 'G']
   elif kind == 'flags':
     text = ('@Engine("sqlite");\n@DefineFlag("limit", "3");\n@DefineFlag("name", "x${limit}");\n'
             'E(1); E(2); E(5); E(7);\nT(x) :- E(x), x < ToInt64(FlagValue("limit"));\n'
@@ -495,8 +524,25 @@ def build_pool(r, scratch, files, tier, procs=None):
     pool.append({'kind': 'corpus', 'file': f, 'main': text, 'root': None, 'cwd': core.REPO,
                  'flags': None, 'preds': preds, 'bad': False})
   for i in range(8 if tier == 'quick' else 14):
-    pool.append(gen_request(r, scratch, i))
+    q = gen_request(r, scratch, i)
+    pool.append(q)
+    if q['kind'] == 'flags':
+      # the same text under other user flags is another request; both live in one history
+      pool.append(dict(q, flags={'limit': str(r.randint(0, 9)), 'name': r.choice(['n', 'm${limit}'])}))
   return pool
+
+
+def make_dirs(scratch):
+  """Working directories a history may change to: two hold a file people.db, one does not."""
+  dirs = []
+  for i, has in enumerate([True, True, False]):
+    d = os.path.join(scratch, 'cwd%d' % i)
+    os.makedirs(d, exist_ok=True)
+    if has:
+      with open(os.path.join(d, 'people.db'), 'wb') as f:
+        f.write(b'')
+    dirs.append(d)
+  return dirs
 
 
 def gen_history(r, pool):
@@ -509,7 +555,14 @@ def gen_history(r, pool):
     pi = r.randrange(len(pool))
     preds = pool[pi]['preds']
     if k == 'clock':
-      ops.append(['clock', r.choice([0.5, 60.0, 86400.0, -3600.0, 1e-6])])
+      x = r.random()
+      if x < 0.5:
+        ops.append(['clock', r.choice([0.5, 60.0, 86400.0, -3600.0, 1e-6])])
+      elif x < 0.8:
+        ops.append(['chdir', r.randrange(3)])
+      else:
+        ops.append(['setenv'] + r.choice([['LANG', 'C'], ['TZ', 'Asia/Tokyo'], ['HOME', '/nonexistent'],
+                                          ['LOGICA_X', '1'], ['COLUMNS', '40'], ['USER', 'somebody']]))
     elif k == 'parse':
       ops.append(['parse', pi])
     elif k == 'sql_again' and len(preds) >= 2:
@@ -684,7 +737,7 @@ def run_case(case, scratch):
   hash seed is case['hashseed'] and which never compiles anything itself (it is the zygote)."""
   env()
   pool = materialise(case, scratch)
-  case = dict(case, programs=pool)
+  case = dict(case, programs=pool, dirs=make_dirs(scratch))
   procs = Procs(case['hashseed'], case['ref_hashseed'], local_is_pristine_zygote=True)
   try:
     oracle = Oracle(pool, procs)
@@ -725,6 +778,7 @@ def run_batch(seed, batch, tier, scratch):
   procs = Procs(hashseed, ref_hashseed, local_is_pristine_zygote=False)
   try:
     pool = build_pool(r, scratch, files, tier, procs)
+    dirs = make_dirs(scratch)
     oracle = Oracle(pool, procs)
     sweep_ops = []
     for pi, q in enumerate(pool):
@@ -740,7 +794,7 @@ def run_batch(seed, batch, tier, scratch):
       # the first real history of every batch runs with real processes throughout
       mode = 'fork' if i == 1 else 'reset'
       for ops in histories:
-        case = {'hashseed': hashseed, 'ref_hashseed': ref_hashseed, 'ops': ops, 'programs': pool}
+        case = {'hashseed': hashseed, 'ref_hashseed': ref_hashseed, 'ops': ops, 'programs': pool, 'dirs': dirs}
         if i == 0:
           op = ops[0]
           result = {'records': [{'op': op, 'result': oracle.pristine('same', 'reset', op[1], op[2]),
@@ -766,7 +820,7 @@ def run_batch(seed, batch, tier, scratch):
           if a != b:
             S.probes['cheap_model_differs_from_real_processes'] += 1
         S.runs += 1
-        used = {op[1] for op in ops if op[0] != 'clock'}
+        used = {op[1] for op in ops if op[0] not in NONPROGRAM_OPS}
         kinds = sorted({pool[i_]['kind'] for i_ in used})
         for k in kinds:
           S.counters['program_kind:' + k] += 1
@@ -776,6 +830,9 @@ def run_batch(seed, batch, tier, scratch):
             S.faults_configured['clock_jump'] += 1
             S.faults_fired['clock_jump'] += 1
             S.sim_time += abs(op[1])
+          elif op[0] in ('chdir', 'setenv'):
+            S.faults_configured['environment_change:' + op[0]] += 1
+            S.faults_fired['environment_change:' + op[0]] += 1
         for rec in result['records']:
           if 'result' in rec and 'error' in rec['result']:
             S.faults_fired['diagnostic_raised_mid_pipeline:' + rec['result']['error']] += 1
@@ -783,16 +840,16 @@ def run_batch(seed, batch, tier, scratch):
           S.states.add(core.digest64(result['state']))
         prev = 'start'
         for op in ops:
-          feat = pool[op[1]]['kind'] if op[0] != 'clock' else 'clock'
+          feat = pool[op[1]]['kind'] if op[0] not in NONPROGRAM_OPS else op[0]
           S.states.add(core.digest64(['pair', prev, op[0], feat]))
           prev = op[0]
         if len(ops) >= 3 and len(used) >= 2:
           S.nontrivial.add(core.digest64([ops, [pool[i_]['main'] for i_ in sorted(used)]]))
         seen_incant = False
         for op in ops:
-          if op[0] != 'clock' and pool[op[1]]['kind'] == 'incant':
+          if op[0] not in NONPROGRAM_OPS and pool[op[1]]['kind'] == 'incant':
             seen_incant = True
-          elif op[0] != 'clock' and op[0] != 'parse' and seen_incant:
+          elif op[0] not in NONPROGRAM_OPS and op[0] != 'parse' and seen_incant:
             S.probes['compile_after_a_program_that_switched_on_experimental_syntax'] += 1
             if pool[op[1]]['kind'] == 'needs_incant':
               S.probes['syntax_sensitive_program_compiled_after_incantation_program'] += 1
@@ -802,13 +859,13 @@ def run_batch(seed, batch, tier, scratch):
                 [v['class'] for v in vs])
         if len(S.samples) < 1 and len(ops) >= 5:
           S.samples.append({'hashseed': hashseed, 'reference_hashseed': ref_hashseed, 'process_model': mode,
-                            'ops': [[op[0]] + [describe(pool[op[1]]) if op[0] != 'clock' else op[1]] + list(op[2:]) for op in ops]})
+                            'ops': [[op[0]] + [describe(pool[op[1]]) if op[0] not in NONPROGRAM_OPS else op[1]] + list(op[2:]) for op in ops]})
         for v in vs:
           if len(S.violations) < 12:
             v = dict(v)
             v.pop('request')
             v['case'] = {'hashseed': hashseed, 'ref_hashseed': ref_hashseed, 'ops': ops,
-                         'programs': freeze_programs(pool, used)}
+                         'programs': freeze_programs(pool, used), 'dirs': 'materialise'}
             S.violations.append(v)
     S.counters['real_process_forks'] = procs.forks
     S.counters['module_universe_resets'] = procs.resets
@@ -827,7 +884,7 @@ def evidence_meta(tier):
                'model is re-run with real processes and only reported if it persists; one history per batch is run under both models and compared. '
                'A history is 3-25 operations out of Parse(P), Compile(P, pred), '
                'CompileReusingRules(P, pred) (same parsed-rules object as an earlier operation), SqlAgain (second '
-               'FormattedPredicateSql on the same LogicaProgram), ClockJump; failing programs (ParsingException, '
+               'FormattedPredicateSql on the same LogicaProgram), ClockJump, ChangeDirectory (to one of three directories, two of which hold a file people.db), SetEnvironmentVariable; failing programs (ParsingException, '
                'RuleCompileException, FunctorError, TypeErrorCaughtException raised part-way through the pipeline) are '
                'ordinary members of the program pool. Pool per batch: 6 (thorough 10) corpus files from integration_tests/** and '
                'type_inference/research/integration_tests with up to 3 predicates each, plus 8 (14) generated programs: '
